@@ -195,6 +195,26 @@ func sigOfRegion(p *core.Prog, fn *ssa.Function, idParam ssa.Value, inRegion fun
 			if sv := lastStoredInto(v); sv != nil {
 				v = core.StripConv(sv)
 			}
+			// the value may be produced by a helper that is handed the id (`return s.nextInGroup(parentID)`): the helper's
+			// own signature — raw or delta — is the kind of this return
+			if cl, ok := v.(*ssa.Call); ok {
+				if h := cl.Call.StaticCallee(); h != nil && len(h.Blocks) > 0 && core.InRepo(core.FnPkgPath(h)) && h != fn {
+					sub := ""
+					for k, a := range cl.Call.Args {
+						if core.StripConv(a) == idParam && k < len(h.Params) {
+							sub = sigOfRegion(p, h, h.Params[k], nil, decoder).kind
+						}
+					}
+					switch sub {
+					case "raw":
+						raws = append(raws, r)
+						continue
+					case "delta":
+						deltas = append(deltas, r)
+						continue
+					}
+				}
+			}
 			switch {
 			case v == idParam:
 				raws = append(raws, r)
@@ -645,26 +665,10 @@ func rt7(c *core.Ctx, p *core.Prog, onlyDefault bool) {
 		// delta is computed against is assigned the current parent id (a delta is relative to the previous
 		// row, not to the first row of the group — the decoder accumulates row by row)
 		if sig.kind != "raw" {
-			var prevF *types.Var
 			pid := s.encode.Params[1]
-			core.EachInstr(s.encode, func(i ssa.Instruction) {
-				bo, ok := i.(*ssa.BinOp)
-				if !ok || bo.Op != token.SUB || core.StripConv(bo.X) != ssa.Value(pid) {
-					return
-				}
-				if fa := core.LoadedField(core.StripConv(bo.Y)); fa != nil {
-					prevF = core.FieldVar(fa)
-				}
-			})
+			prevF := prevFieldOf(s.encode, pid, 0)
 			if prevF != nil {
-				isUpd := func(i ssa.Instruction) bool {
-					st, ok := i.(*ssa.Store)
-					if !ok {
-						return false
-					}
-					fa, ok := st.Addr.(*ssa.FieldAddr)
-					return ok && core.FieldVar(fa) == prevF && core.DerivesFrom(st.Val, func(v ssa.Value) bool { return v == ssa.Value(pid) })
-				}
+				isUpd := updatesPrev(s.encode, pid, prevF, 0)
 				stale, _ := (core.PathQuery{Fn: s.encode, Avoid: isUpd, ExitReturnOnly: true}).Exists()
 				c.Check(!stale, key+"|prev", pos, name, "the previous parent id is updated on every path of Encode",
 					fmt.Sprintf("%s.Encode can return without assigning the current parent id to %s (e.g. on the same-group path): the next delta is computed against an older row while the decoder accumulates row by row, so from the third row of a group on the related records land on the wrong parent", name, prevF.Name()))
@@ -776,4 +780,59 @@ func defaultLive(p *core.Prog, reach map[*ssa.Function]bool, t *types.Named) boo
 		})
 	}
 	return res
+}
+
+// prevFieldOf: the field the delta `id − previous` is computed against, in fn or in a package helper fn hands the id to.
+func prevFieldOf(fn *ssa.Function, pid ssa.Value, depth int) *types.Var {
+	var prevF *types.Var
+	core.EachInstr(fn, func(i ssa.Instruction) {
+		if prevF != nil {
+			return
+		}
+		switch x := i.(type) {
+		case *ssa.BinOp:
+			if x.Op == token.SUB && core.StripConv(x.X) == pid {
+				if fa := core.LoadedField(core.StripConv(x.Y)); fa != nil {
+					prevF = core.FieldVar(fa)
+				}
+			}
+		case *ssa.Call:
+			if h := x.Call.StaticCallee(); h != nil && len(h.Blocks) > 0 && depth < 2 && h != fn && core.InRepo(core.FnPkgPath(h)) {
+				for k, a := range x.Call.Args {
+					if core.StripConv(a) == pid && k < len(h.Params) {
+						if f := prevFieldOf(h, h.Params[k], depth+1); f != nil {
+							prevF = f
+						}
+					}
+				}
+			}
+		}
+	})
+	return prevF
+}
+
+// updatesPrev: the instruction assigns (a value derived from) the current id to prevF — directly, or by calling a
+// package helper that is handed the id and does so on every path to its return.
+func updatesPrev(fn *ssa.Function, pid ssa.Value, prevF *types.Var, depth int) func(ssa.Instruction) bool {
+	return func(i ssa.Instruction) bool {
+		switch x := i.(type) {
+		case *ssa.Store:
+			fa, ok := x.Addr.(*ssa.FieldAddr)
+			return ok && core.FieldVar(fa) == prevF && core.DerivesFrom(x.Val, func(v ssa.Value) bool { return v == pid })
+		case *ssa.Call:
+			h := x.Call.StaticCallee()
+			if h == nil || len(h.Blocks) == 0 || depth >= 2 || h == fn || !core.InRepo(core.FnPkgPath(h)) {
+				return false
+			}
+			for k, a := range x.Call.Args {
+				if core.StripConv(a) == pid && k < len(h.Params) {
+					skip, _ := (core.PathQuery{Fn: h, Avoid: updatesPrev(h, h.Params[k], prevF, depth+1), ExitReturnOnly: true}).Exists()
+					if !skip {
+						return true
+					}
+				}
+			}
+		}
+		return false
+	}
 }
